@@ -235,3 +235,34 @@ CHECKS['C05'] = dict(
                 counters=['trees']),
     assumptions=[A_SHAPE, A_POLY],
 )
+
+
+def pool_units(prop):
+    return lambda tier: [unit('pool', 'checks/c10_pool.cpp', 'exact', shards=1, args=['--prop', prop]),
+                         unit('pool-chk', 'checks/c10_pool.cpp', 'chk', shards=1, args=['--prop', prop])]
+
+
+POOL_GUARD_OPS = ['A=move(B):value', 'A=move(A):value', 'A+=KH(H):threw', 'A+=KH(H):value', 'A+=B:threw', 'A+=B:value', 'U:=Support(G,2,1):threw',
+                  'A:=S1(G,whole,too-few-coefficients):threw', '(void)U.at(99):threw', '{S1 t(move(A));}:value', 'U=U.calcUnion(A.getSupport()):threw',
+                  'U=U.calcUnion(A.getSupport()):value', 'A=lincomb({2,3},{A,B}):threw', 'A=lincomb({2,3},{A,B}):value', '(void)A.front():threw', '(void)A.front():value']
+
+CHECKS['C10'] = dict(
+    title='Objects are always valid: class invariants survive every history',
+    level='model_checking',
+    engine='E3 object-pool BFS',
+    technique='explicit-state breadth-first search over all histories of ~85 public operations on a pool of live library objects, run to fixpoint with canonical-state deduplication; every transition executes the real code and the class invariants are evaluated on every object in every reached state',
+    level_text='Pool = one Support, two Spline<1>, one Spline<0> (second search: Spline<2>) over a grid G, an equal copy and a different grid H; alphabet = valid and invalid constructions, copy/move construction and assignment between slots, self-assignment, self-move, cross-order assignment, += -= *= /=, results of + - * / and of operator applications assigned back, union/intersection, calls that must throw (other grid, bad indices, wrong coefficient count). Search (quick: depth 5; thorough: to fixpoint) on the key (grid class, window) per slot + copy-provenance partition; after every transition every object must satisfy the invariants through the public accessors, moved-from objects must be interval-free on the same grid; also with the library self-checks compiled in.',
+    level_note='The model IS the implementation: a state is represented by the shortest history reaching it and re-created by replaying that history on fresh real objects, so every explored trace is an implementation execution (traces_validated_against_impl = transitions). The key drops coefficient values (no mutator in the alphabet branches on them, A-shape); the provenance partition keeps copies distinguishable from independently built equals. Bounds: pool of 4 slots, G with 3 (thorough 4) points, H with 2 (3).',
+    units=pool_units('C10'),
+    rule='each evaluation is one transition (history + next operation) executed on real objects; all are distinct by construction (distinct (state, operation) pairs).',
+    bounds=dict(quick='G 3 points, H 2 points; pools (1,1,0) and (1,1,2); every history up to depth 5 (state-deduplicated); with and without library self-checks', thorough='same pools to FIXPOINT (about 2.8e5 states, depth 23, each), plus G 4 points / H 3 points up to depth 6'),
+    guards=dict(classes=POOL_GUARD_OPS, counters=['states', 'transitions']),
+    mc_note='states = distinct canonical pool states over both searches and both build configurations; transitions = operations executed (each on a freshly replayed pool).',
+    assumptions=[A_SHAPE, 'aliasing between objects can only arise through copy/move operations, which the provenance partition tracks'],
+)
+CHECKS['C14'] = dict(CHECKS['C10'],
+    title='Value semantics: operations never disturb their operands or earlier results',
+    technique='explicit-state breadth-first search over all histories of ~85 public operations on a pool of live library objects (fixpoint, canonical state = shapes + copy-provenance partition); around every transition the observable state of every object and grid is snapshotted through the public API and compared',
+    level_text='Same pool, alphabet and search as C10. Before every transition a deep snapshot (window, coefficients, grid points, four evaluations) of every live object, every fixed operand and every grid is taken; afterwards every object other than the explicit target of an in-place operator or assignment is identical, a throwing call changes nothing, copies equal their source, self-assignment keeps the value, mutating a copy leaves the original alone (copy-then-mutate operations and 2-step paths of the search).',
+    units=pool_units('C14'),
+)
